@@ -193,6 +193,14 @@ impl<'a, 'b, Version, Purpose> GenericParser<'a, 'b, Version, Purpose> {
       }
     }
 
+    //validators which were registered without an expected claim (see extend_validation_claims) run as well
+    for (key, box_validator) in &self.claim_validators {
+      if !self.claims.contains_key(key) {
+        let validator = box_validator.as_ref();
+        validator(key, &json[&key])?;
+      }
+    }
+
     Ok(json)
   }
 }
